@@ -170,6 +170,13 @@ func (r *Reporter) readSourceLines(filename string, lineNum, before, after int) 
 		return sourceLines{}
 	}
 
+	// The file is shorter than the position expects (it changed after parsing,
+	// or the read was cut short): the lines that happen to be there are not
+	// the context of this diagnostic, so degrade to a message without excerpt.
+	if lineNum > len(lines) {
+		return sourceLines{}
+	}
+
 	start := lineNum - before - 1 // Convert to 0-based index
 	if start < 0 {
 		start = 0
